@@ -75,11 +75,23 @@ pub trait Check: Sync {
     }
     /// called once per process before any run
     fn prepare(&self, _tier: Tier) {}
+    /// optional extra step run once by the parent after the batch (e.g. a sample under Miri)
+    fn side_check(&self, _tier: Tier, _seed: u64) -> Option<SideResult> {
+        None
+    }
     /// extra evidence keys computed after the batch (optional)
     fn extra(&self, _tier: Tier) -> Value {
         Value::Null
     }
 }
+
+pub struct SideResult {
+    pub evidence: Value,
+    pub violations: Vec<Violation>,
+}
+
+/// case index under which violations of a side check are recorded
+pub const SIDE_CASE: u64 = u64::MAX / 2;
 
 pub fn verif_root() -> PathBuf {
     std::env::var("VERIF_ROOT").map_or_else(|_| PathBuf::from("/verif"), PathBuf::from)
@@ -567,6 +579,16 @@ fn parent_main(check: &dyn Check, a: &Args) -> ! {
     let nworkers = check.workers(a.tier).max(1);
     let m = run_workers(check, a, nworkers, "b", false);
     let known = load_known();
+    let mut m = m;
+    let mut side_evidence = Value::Null;
+    if let Some(sr) = check.side_check(a.tier, a.seed) {
+        side_evidence = sr.evidence;
+        for v in sr.violations {
+            m.violation_count += 1;
+            *m.per_sig.entry(v.sig.clone()).or_insert(0) += 1;
+            m.violations.push(json!({"sig": v.sig, "detail": v.detail, "case": SIDE_CASE, "seed": a.seed, "values": Value::Null, "batch_seed": a.seed, "profile": "release"}));
+        }
+    }
 
     // one representative per signature: the shortest decision list
     let mut by_sig: BTreeMap<String, Value> = BTreeMap::new();
@@ -653,6 +675,9 @@ fn parent_main(check: &dyn Check, a: &Args) -> ! {
         "known_findings_reproduced": known_hits,
         "new_violations": report_lines,
     });
+    if !side_evidence.is_null() {
+        coverage["side_check"] = side_evidence;
+    }
     let extra = check.extra(a.tier);
     if let (Some(c), Some(e)) = (coverage.as_object_mut(), extra.as_object()) {
         for (k, v) in e {
@@ -687,6 +712,17 @@ fn replay_main(check: &dyn Check, f: &Path, tier: Tier) -> ! {
         // re-execute under the build profile the violation was found with
         let st = std::process::Command::new(exe_for(prof)).arg(check.id()).arg("--replay").arg(f).arg("--tier").arg(tier.name()).status();
         std::process::exit(st.ok().and_then(|s| s.code()).unwrap_or(2));
+    }
+    if case == SIDE_CASE {
+        let seed = v["batch_seed"].as_u64().unwrap_or(1);
+        let hit = check.side_check(tier, seed).map(|r| r.violations).unwrap_or_default();
+        if let Some(x) = hit.iter().find(|x| x.sig == want).or(hit.first()) {
+            println!("reproduced by the side check: {}\n  detail: {}", x.sig, x.detail);
+            println!("VIOLATION property={} replay={}", check.id(), f.display());
+            std::process::exit(1);
+        }
+        println!("not reproduced: the side check passes on this tree");
+        std::process::exit(0);
     }
     if want.starts_with("crash|") {
         // the run kills its process: replay it in a child, from its seed
